@@ -113,6 +113,9 @@ def add_options(rng, case):
     case["stale_seed"] = rng.randint(0, 10**6)
     k = rng.weighted([(0, 4), (1, 3), (2, 2), (3, 1)])
     case["history"] = [rng.choice(["compdev", "simdev", "comp", "sim", "mean"]) for _ in range(k)]
+    # data-scale axis: the same data in other units (exact scalings by powers of two, from ~1e-10 to ~1e6); the estimate must
+    # scale accordingly. Dummy observations are in fixed units, so only cases without priors are rescaled
+    case["scale_exps"] = rng.sample([-33, -20, 20, -27, 10, -3, 4], rng.weighted([(1, 2), (2, 1)])) if (case["priors"] is None and rng.chance(0.45)) else []
 
 
 def noise_free_data(rng, n, m, p, icpt, cols):
@@ -176,6 +179,10 @@ def gen_comp_case(rng):
     c = [str(Fr(rng.randint(-4, 4), 2)) for _ in range(n)] if icpt else None
     if icpt and rng.chance(0.15):
         c = ["0"] * n
+    elif icpt and rng.chance(0.4):
+        # the intercept in other units (tiny is not zero): exact power-of-two scalings from ~1e-12 to ~1e6
+        f = Fr(2) ** rng.choice([-40, -33, -27, -20, 20])
+        c = [str(Fr(x) * f) for x in c]
     # deviation flags of successive _get_companion_solution calls on ONE Variant
     calls = rng.weighted([([False], 3), ([True, False], 3), ([False, True, False], 2), ([True, True, False], 1)])
     return {"op": "comp", "n": n, "p": p, "icpt": icpt, "A": A, "c": c, "calls": list(calls)}
@@ -825,6 +832,83 @@ def compare_est(ctx: Ctx, case, info, post, replies):
 # streams
 # ---------------------------------------------------------------------------------------
 
+def scaled_case(case, e):
+    """the same data multiplied by 2**e (exactly representable), default way of calling"""
+    f = Fr(2) ** e
+    c2 = {k: v for k, v in case.items() if k not in ("gen",)}
+    c2["variants"] = [{"Y": [[None if x is None else x * f for x in row] for row in v["Y"]],
+                       "X": [[None if x is None else x * f for x in row] for row in v["X"]]} for v in case["variants"]]
+    c2["target"] = None; c2["history"] = []; c2["scale_exps"] = []
+    return c2
+
+
+def oracle_scale(ctx: Ctx, case, info, post, e, info_s, post_s):
+    """Equivariance of everything the property speaks about under a change of units y, x -> s*y, s*x (s = 2**e):
+    A, B and the eigenvalues are invariant, c, residuals, mean and simulations scale by s, covariances by s^2; and, directly in the
+    scaled units, the reported mean solves (I - sum A) mu = c with a tolerance relative to the data's own scale (no absolute floor),
+    which is what separates an intercept that is small from one that is zero."""
+    s = float(Fr(2) ** e)
+    n, p = case["n"], case["p"]
+    tagc = {"scale": f"2^{e}", **small(case)}
+    c2 = scaled_case(case, e)
+
+    def well(cs, vid):
+        lhs, rhs, complete = stack(cs, vid)
+        Rall = rhs[:, complete]
+        return bool(Rall.size and np.linalg.cond(Rall @ Rall.T) < 1e7)
+    # with an intercept the regressors [s*y1; s*x; 1] are badly scaled for s far from 1: the normal matrix of the code is then
+    # ill conditioned (cond ~ s^-2) and nothing numerical is demanded of the estimate itself -- only of the mean given (A, c)
+    well_all = all(well(case, vid) and well(c2, vid) for vid in range(len(case["variants"])))
+    ctx.count("est:data-scale-well-conditioned=" + str(well_all))
+    if "error" in info_s:
+        if well_all:
+            ctx.fail("scale-equivariance", tagc, f"estimate succeeds on the data but raises on the same data times 2^{e}: " + info_s["exc"])
+        return
+    for vid, (r0, r1) in enumerate(zip(info["variants"], info_s["variants"])):
+        def cmp(name, a1, a0, k, tol=1e-8):
+            if a0 is None or a1 is None:
+                return (a0 is None) == (a1 is None)
+            a0 = np.asarray(a0, dtype=float); a1 = np.asarray(a1, dtype=float) / s ** k
+            if a0.shape != a1.shape or not np.array_equal(np.isfinite(a0), np.isfinite(a1)):
+                return False
+            fin = np.isfinite(a0)          # inf/NaN cells (division by T_fitted - K = 0, missing data) only have to coincide
+            ref = max(1.0, float(np.max(np.abs(a0[fin]))) if np.any(fin) else 1.0)
+            return bool(np.all(np.abs(a1[fin] - a0[fin]) <= tol * ref))
+        checks = [("A", r1["A"], r0["A"], 0), ("B", r1["B"], r0["B"], 0), ("c", r1["c"], r0["c"], 1), ("residuals", r1["u"], r0["u"], 1),
+                  ("cov_residuals", r1["cov"], r0["cov"], 2), ("returned-residuals", r1["u_db"], r0["u_db"], 1)]
+        Asum = sum(r0["A"][:, l * n:(l + 1) * n] for l in range(p))
+        IA = np.eye(n) - Asum
+        mean_ok = bool(np.all(np.isfinite(IA)) and np.linalg.svd(IA, compute_uv=False)[-1] > 1e-4 and np.linalg.cond(IA) < 1e5)
+        if mean_ok and post["mean"][vid] is not None:
+            checks.append(("mean", post_s["mean"][vid], post["mean"][vid], 1))
+        Tc = np.zeros((n * p, n * p)); Tc[:n, :] = r0["A"]
+        for i in range(n, n * p):
+            Tc[i, i - n] = 1.0
+        rho = float(np.max(np.abs(np.linalg.eigvals(Tc)))) if Tc.size else 0.0
+        if "sim" in post and "sim" in post_s and rho < 1.2:
+            checks.append(("simulation", post_s["sim"][vid], post["sim"][vid], 1, 1e-7 * max(1.0, rho) ** (case["cols"] - p)))
+        if rho < 0.95 and post["acov"][vid] is not None and post_s["acov"][vid] is not None:
+            checks.append(("acov", np.array(post_s["acov"][vid]), np.array(post["acov"][vid]), 2, 1e-7 / (1 - rho)))
+        # (eigenvalues are a function of A, whose invariance is checked; comparing them directly is unsound for the defective
+        #  companion matrices that noise-free data produce: perturbations of size eps move them by eps^(1/k))
+        for chk in (checks if well_all else []):
+            name, a1, a0, k = chk[:4]
+            if not cmp(name, a1, a0, k, *(chk[4:])):
+                ctx.fail("scale-equivariance-" + name, tagc, f"variant {vid}: {name} of the data times 2^{e} is not 2^({e}*{k}) times {name} of the data")
+                break
+        # directly, in the scaled units: (I - sum A) mean = c, relative to the size of c itself
+        mu1, c1 = post_s["mean"][vid], r1["c"]
+        if mean_ok and mu1 is not None and c1 is not None:
+            A1sum = sum(r1["A"][:, l * n:(l + 1) * n] for l in range(p))
+            resid = (np.eye(n) - A1sum) @ mu1 - c1
+            size = max(float(np.max(np.abs(c1))), float(np.max(np.abs(mu1))))
+            # an intercept that is round-off of the data scale is not a number to hold the mean to
+            if np.all(np.isfinite(c1)) and np.all(np.isfinite(mu1)) and np.linalg.svd(np.eye(n) - A1sum, compute_uv=False)[-1] > 1e-4 \
+                    and float(np.max(np.abs(c1))) > 1e-9 * s and float(np.max(np.abs(resid))) > 1e-7 * size:
+                ctx.fail("mean", tagc, f"variant {vid}: in units 2^{e}, (I - sum A_i) mean != c: c = {c1.tolist()}, mean = {mu1.tolist()}")
+        ctx.nontriv(("scale", e, n, case["m"], p, case["icpt"]))
+
+
 def merge_line(target_keys, out_names):
     return " ".join(["merge", "-" if target_keys is None else "T"] + [f"{k}:t" for k in (target_keys or [])] + ["|"] + [f"{k}:o" for k in out_names])
 
@@ -850,6 +934,14 @@ def do_est_cases(ctx: Ctx, cases, with_model=True):
         nmiss = sum(1 for v in case["variants"] for row in v["Y"] + v["X"] for x in row if x is None)
         ctx.count("est:missing-cells=" + str(min(nmiss, 3)))
         oracle_est(ctx, case, info, post)
+        if "error" not in info:
+            for e in case.get("scale_exps") or []:
+                c2 = scaled_case(case, e)
+                info_s = run_impl_est(c2)
+                post_s = impl_post(c2, info_s) if "error" not in info_s else {}
+                ctx.evaluations += 1
+                ctx.count(f"est:data-scale=2^{e}")
+                oracle_scale(ctx, case, info, post, e, info_s, post_s)
         if "merge" in info:
             en_, xn_ = names_of(case["n"], case["m"])
             merge_cases.append((case, info["merge"], en_ + xn_ + ["res_" + nm for nm in en_]))
@@ -1000,8 +1092,9 @@ def do_comp_cases(ctx: Ctx, cases, with_model=True):
             if abs(np.linalg.det(IA)) > 1e-9:
                 ctx.fail("mean-raises", case, repr(e)[:200])
         # oracle: the mean solves (I - sum A) mu = c
-        if mu is not None and abs(np.linalg.det(IA)) > 1e-6 and np.max(np.abs(IA @ mu - cvec)) > 1e-9 * max(1.0, np.max(np.abs(mu))):
-            ctx.fail("mean", case, "(I - sum A_i) mean != c")
+        if mu is not None and abs(np.linalg.det(IA)) > 1e-6 and np.max(np.abs(IA @ mu - cvec)) > 1e-9 * max(np.max(np.abs(cvec)), np.max(np.abs(mu))) \
+                and np.linalg.cond(IA) < 1e6:
+            ctx.fail("mean", case, f"(I - sum A_i) mean != c (relative to the size of c): c = {cvec.tolist()}, mean = {mu.tolist()}")
         ctx.nontriv(("comp", n, p, case["icpt"], bool(c is not None and np.any(c != 0))))
         if hreplies is not None:
             # the request history replayed on the model's state machine, request by request
@@ -1022,7 +1115,7 @@ def do_comp_cases(ctx: Ctx, cases, with_model=True):
                     ctx.disagree("comp-mean", case, mu.tolist(), "singular")
             elif mu is not None:
                 mu_m = np.array([float(Fr(x)) for x in q["mean"].split()])
-                if np.linalg.cond(IA) < 1e8 and not close(mu, mu_m, tol=1e-9 * max(1.0, np.linalg.cond(IA))):
+                if np.linalg.cond(IA) < 1e8 and not close(mu, mu_m, scale=max(float(np.max(np.abs(mu_m))), 1e-300), tol=1e-9 * max(1.0, np.linalg.cond(IA))):
                     ctx.disagree("comp-mean", case, mu.tolist(), mu_m.tolist())
 
 
